@@ -658,6 +658,74 @@ def shard_worker(job):
     return S
 
 
+# ------------------------------------ callables that are not walked: builtins, classes, partials, instances
+OPAQUE_CALLS = {
+    "len": [[[[1, 2, 3]], {}], [[[1]], {}], [["ab"], {}], [[], {}]],
+    "abs": [[[3], {}], [[-3], {}]],
+    "sorted": [[[[3, 1]], {}], [[[3, 1]], {"reverse": True}], [[[1, 3]], {}], [[[3, 1]], {"key": None}]],
+    "max": [[[1, 2], {}], [[[1, 2]], {}], [[2, 1], {}], [[1, 2], {"key": None}], [[[]], {"default": 0}]],
+    "pow": [[[2, 3], {}], [[2, 3, 5], {}], [[3, 2], {}], [[2], {"exp": 3}]],
+    "divmod": [[[7, 2], {}], [[2, 7], {}]],
+    "print": [[["a"], {}], [["a", "b"], {"sep": "-"}], [[], {}], [["b"], {"end": ""}]],
+    "list.count": [[[1], {}], [[2], {}]],
+    "str.join": [[[["x", "y"]], {}], [[["y", "x"]], {}]],
+    "dict.get": [[["k"], {}], [["z"], {}], [["z", 0], {}]],
+    "int": [[["3"], {}], [["11", 2], {}], [["11"], {"base": 2}], [[], {}]],
+    "dict": [[[], {"a": 1}], [[[["a", 1]]], {}], [[], {}], [[], {"a": 2}]],
+    "KlassWithMethod": [[[], {}]],
+    "partial(pyf,1)": [[[2], {}], [[3], {}], [[2], {"c": 3}], [[], {"b": 2}]],
+    "partial(len)": [[[[1, 2, 3]], {}], [[[1]], {}]],
+    "partial(pow,2)": [[[3], {}], [[4], {}]],
+    "partial(bound)": [[[1], {}], [[2], {}]],
+    "instance.__call__": [[[1], {}], [[1], {"y": 2}], [[2], {}], [[], {"x": 1}]],
+    "pyf": [[[1, 2], {}], [[1, 2, 3], {}]],
+    "bound": [[[1], {}]],
+}
+
+
+def opaque_stage(ctx):
+    """builtins / classes / partial objects / callable instances: filter_args must succeed on every call Python
+    accepts and return a form that contains ALL the arguments (the {'*': args, '**': kwargs} fallback), so that
+    different arguments never share a canonical form; which callables take the fallback is the model's
+    takes_fallback(inspect.ismethod, inspect.isfunction)."""
+    cases = [{"callable": name, "args": a, "kwargs": k} for name, calls in sorted(OPAQUE_CALLS.items()) for a, k in calls]
+    rc, out, err = common.run_impl("c07_opaque_impl.py", input_text="\n".join(json.dumps(c) for c in cases) + "\n")
+    res = [json.loads(l) for l in out.splitlines() if l.strip()]
+    if len(res) != len(cases) or any("harness_error" in r for r in res):
+        raise RuntimeError("c07_opaque_impl: %s %s" % (err[-1500:], [r for r in res if "harness_error" in r][:1]))
+    tf = ctx.coq_eval_lines(REQ, "", ["takes_fallback %s %s" % (m, f) for m in ("false", "true") for f in ("false", "true")],
+                            name="c07_fallback")
+    table = {(m, f): v.strip() == "true" for (m, f), v in zip([(a, b) for a in (False, True) for b in (False, True)], tf)}
+    n_acc, bad_o, bad_m, forms = 0, [], [], {}
+    for c, r in zip(cases, res):
+        fallback = table[(r["ismethod"], r["isfunction"])]
+        full = {"*": c["args"], "**": c["kwargs"]}
+        if fallback and r["fa"] != {"ok": full}:
+            (bad_o if r["accepted"] else bad_m).append((c, r))      # the model says: fallback form, always
+        if not r["accepted"]:
+            continue
+        n_acc += 1
+        if "ok" not in r["fa"]:
+            if fallback:
+                continue  # already recorded
+            bad_o.append((c, r))
+            continue
+        # two accepted calls of one callable with different arguments must not share a form
+        key = (c["callable"], json.dumps(r["fa"]["ok"], sort_keys=True))
+        prev = forms.setdefault(key, c)
+        if prev is not c and (prev["args"], prev["kwargs"]) != (c["args"], c["kwargs"]) and fallback:
+            bad_o.append((c, dict(r, same_form_as=prev)))
+    for c, r in bad_o[:2]:
+        ctx.violation("%s(*%s, **%s): Python accepts the call; filter_args gives %s, the canonical form must contain all "
+                      "the arguments: %s" % (c["callable"], c["args"], c["kwargs"], json.dumps(r["fa"]),
+                                             json.dumps({"*": c["args"], "**": c["kwargs"]})),
+                      {"kind": "oracle-opaque", "opaque_case": c, "impl": r}, True)
+    if bad_m and not bad_o:
+        ctx.note("filter_args differs from the fallback form on %d calls that Python rejects (outside the property)" % len(bad_m))
+    return {"opaque_cases": len(cases), "opaque_accepted": n_acc, "opaque_oracle_failures": len(bad_o),
+            "opaque_callables": sorted(OPAQUE_CALLS), "takes_fallback_table": {"%s,%s" % k: v for k, v in table.items()}}
+
+
 # ------------------------------------------------------- get_func_name / func_id (model M2b, Model/FuncName.v)
 NAME_MODS = ["pkg.mod", "pkg", "", None, "__main__", "a..b", ".a", "m-x", "__main__.x"]
 NAME_NAMES = ["f", "<lambda>", "a.b", "x-y", "/abs", "", "wrapper", None]
@@ -861,9 +929,9 @@ def run(ctx):
     if source_tie == "proved":
         ok_gen, log_gen = ctx.coq_build(["Proofs/FilterArgsGen.vo"])
         if ok_gen:
-            ok_pa, out_pa = ctx.coq_run("Require Import JV.Proofs.FilterArgsGen.\nPrint Assumptions source_matches_model.\n",
+            ok_pa, out_pa = ctx.coq_run("Require Import JV.Proofs.FilterArgsGen.\nPrint Assumptions source_matches_model.\nPrint Assumptions takes_fallback_gen_eq.\n",
                                         "assum_c07_gen")
-            if not (ok_pa and "Closed under the global context" in out_pa):
+            if not (ok_pa and out_pa.count("Closed under the global context") == 2):
                 source_tie = "Print Assumptions of source_matches_model is not closed"
         else:
             source_tie = "Proofs/FilterArgsGen.v no longer proves the regenerated loops equal to the hand model"
@@ -936,6 +1004,7 @@ def run(ctx):
 
     phase["shards"] = round(time.time() - t0, 1)
     t0 = time.time()
+    opaque_cov = opaque_stage(ctx)
     name_cov = names_stage(ctx, quick)
     phase["names"] = round(time.time() - t0, 1)
     t0 = time.time()
@@ -1031,7 +1100,7 @@ def run(ctx):
             ctx.violation("unlisted known class " + key, {"kind": "oracle", "case": known_ex[key]["case"]}, True)
 
     ctx.finish({
-        "evaluations": tot["cases"] + n_opaque + name_cov["name_cases"],
+        "evaluations": tot["cases"] + n_opaque + name_cov["name_cases"] + opaque_cov["opaque_cases"],
         "distinct_nontrivial": tot["nontrivial"],
         "rule": "exhaustive: every well-formed signature with <= %d parameters (5 kinds x default/no default; %d "
                 "signatures), plain functions and bound methods (self positional-or-keyword and positional-only; self "
@@ -1061,6 +1130,7 @@ def run(ctx):
         "phase_seconds": phase,
         "source_tie_filter_args_loops": source_tie,
         "func_name_model": name_cov,
+        "opaque_callables": opaque_cov,
         "exhaustive_cases": n_exh,
         "stream_cases_values_sharedcode_wraps_receivers": n_streams,
         "corpus_and_witness_cases": n_corpus,
@@ -1088,6 +1158,15 @@ def run(ctx):
 def replay(ctx, path):
     obj = json.load(open(path))
     rep = obj.get("replay", obj)
+    if rep.get("opaque_case"):
+        c = rep["opaque_case"]
+        rc, out, err = common.run_impl("c07_opaque_impl.py", input_text=json.dumps(c) + "\n")
+        r = json.loads(out.splitlines()[0])
+        bad = r.get("accepted") and r.get("fa") != {"ok": {"*": c["args"], "**": c["kwargs"]}} and not r.get("isfunction") \
+            and not r.get("ismethod")
+        print("replay:", json.dumps(c), "->", json.dumps(r), "=>", "arguments lost from the canonical form" if bad
+              else "property holds")
+        return 1 if bad else 0
     if rep.get("name_case"):
         r = run_name_impl([rep["name_case"]])[0]
         bad = name_oracle(rep["name_case"], r)
